@@ -7,7 +7,69 @@ import modelcheck
 import gen_alias
 
 
+FIXED_SEED = 424243
+FIXED_N = 5000
+_B = {}
+_W = [None]
+
+
+def fixed_case(idx):
+    import random
+    import diffrun
+    import lyast
+    rng = random.Random(FIXED_SEED * 1000003 + idx)
+    case = gen_alias.case(rng, allow_growth=True)
+    m = diffrun.model_run(case['stmts'])
+    if m is None or 'refused' in m:
+        return idx, None, None
+    text = lyast.to_source(case['stmts'])
+    c = {'id': 'fx%d' % idx, 'files': {'main.lay': text}, 'main': 'main.lay', 'expected': m, 'runs': [('dbg', [])]}
+    mm, res = diffrun.run_case(c, _B, _W[0])
+    bad = [x for x in mm if x['kind'] == 'violation']
+    return idx, (bad[0]['why'] if bad else ''), text
+
+
+def fixed_corpus(chk, bins, tier):
+    """growth with stored aliases on a FIXED corpus: the cases on which the tree shows D6 are listed one by one in
+    known_alias_cases.json, so a new failing case is reported even though it involves list growth"""
+    import json
+    import os
+    import vlib
+    _B.update(bins)
+    _W[0] = os.path.join(vlib.WORK, 'C10', 'fixed')
+    os.makedirs(_W[0], exist_ok=True)
+    try:
+        known = set(json.load(open('/verif/known_alias_cases.json'))['failing'])
+    except (OSError, ValueError, KeyError):
+        known = set()
+    for idx, why, text in vlib.pmap(fixed_case, range(FIXED_N), chunksize=8):
+        if why is None:
+            continue
+        chk.evaluations += 1
+        chk.count('fixed_corpus_cases')
+        if not why:
+            continue
+        if idx in known:
+            chk.count('fixed_corpus_known_failures')
+            f = [x for x in chk.findings['findings'] if x['id'] == 'D6']
+            chk.known.setdefault('D6', {'what': f[0]['what_fails'], 'n': 0})
+            chk.known['D6']['n'] += 1
+        else:
+            chk.violation('fixed-corpus alias#%d (not listed in known_alias_cases.json): %s' % (idx, why),
+                          {'main.lay': text}, {'idx': idx})
+
+
 def main():
+    if '--make-known' in sys.argv:
+        import json
+        import os
+        import vlib
+        _B['dbg'] = vlib.build('dbg')['lyrun']
+        _W[0] = vlib.workdir('known_alias')
+        failing = sorted(idx for idx, why, text in vlib.pmap(fixed_case, range(FIXED_N), chunksize=8) if why)
+        json.dump({'seed': FIXED_SEED, 'n': FIXED_N, 'failing': failing}, open('/verif/known_alias_cases.json', 'w'))
+        print(len(failing), 'of', FIXED_N, 'fixed cases show D6')
+        return 0
     tier = sys.argv[sys.argv.index('--tier') + 1] if '--tier' in sys.argv else 'quick'
     return modelcheck.run(
         'C10', gen_alias.case, tier,
@@ -18,7 +80,8 @@ def main():
               'list/tuple has/index); the reference model gives every object an immutable identity. Clean stratum: no '
               'list outgrows its capacity while an alias is stored off a plain variable (any divergence is a '
               'violation); dirty stratum (35%): growth with stored aliases, divergences there carry the D6 signature'),
-        n_quick=2000, n_thorough=80000, stat_keys=('collections',), requires=[('model_calls', 5000, 100000)])
+        n_quick=2000, n_thorough=80000, stat_keys=('collections',), requires=[('model_calls', 5000, 100000)],
+        post=fixed_corpus)
 
 
 if __name__ == '__main__':
